@@ -224,12 +224,25 @@ impl Drop for Kid {
 /// A live `RespServer` (the real `handle_connection`) on a loopback port.
 pub struct Live { pub rt: tokio::runtime::Runtime, pub port: u16, handle: tokio::task::JoinHandle<()> }
 impl Live {
-    pub fn start() -> Option<Live> {
+    pub fn start() -> Option<Live> { Live::start_with(None) }
+    /// `remote`: Some(port) configures sharding: tenant `remote` is owned by node 2 at that port,
+    /// so `GRAPH.* remote …` takes the forwarding branch of `handle_connection`
+    pub fn start_with(remote: Option<u16>) -> Option<Live> {
         let rt = tokio::runtime::Builder::new_multi_thread().worker_threads(2).enable_all().build().ok()?;
         let port = { let l = std::net::TcpListener::bind("127.0.0.1:0").ok()?; l.local_addr().ok()?.port() };
         let store = std::sync::Arc::new(tokio::sync::RwLock::new(samyama::graph::GraphStore::new()));
         let cfg = samyama::protocol::ServerConfig { address: "127.0.0.1".into(), port, max_connections: 100, data_path: None };
-        let server = samyama::protocol::RespServer::new(cfg, store);
+        let mut server = samyama::protocol::RespServer::new(cfg, store);
+        if let Some(rp) = remote {
+            let router = std::sync::Arc::new(samyama::sharding::Router::new(1));
+            router.update_route("remote".to_string(), 2);
+            router.update_route("local".to_string(), 1);
+            let mut cc = samyama::raft::ClusterConfig::new("verif".to_string(), 1);
+            cc.add_node(1, format!("127.0.0.1:{}", port), true);
+            cc.add_node(2, format!("127.0.0.1:{}", rp), true);
+            let cm = std::sync::Arc::new(samyama::raft::ClusterManager::new(cc).ok()?);
+            server = server.with_sharding(router, std::sync::Arc::new(samyama::sharding::Proxy::new()), cm);
+        }
         let handle = rt.spawn(async move { let _ = server.start().await; });
         for _ in 0..200 {
             if std::net::TcpStream::connect(("127.0.0.1", port)).is_ok() { return Some(Live { rt, port, handle }); }
@@ -276,4 +289,36 @@ impl Live {
 }
 impl Drop for Live {
     fn drop(&mut self) { self.handle.abort(); }
+}
+
+/// A scripted "owning node": every accepted connection reads the forwarded command, then
+/// writes the next scripted reply chunk by chunk (40 ms apart, so that the proxy sees separate
+/// reads) and closes.
+pub struct FakeRemote { pub port: u16, script: std::sync::Arc<std::sync::Mutex<std::collections::VecDeque<Vec<Vec<u8>>>>> }
+impl FakeRemote {
+    pub fn start() -> Option<FakeRemote> {
+        use std::io::Read;
+        let l = std::net::TcpListener::bind("127.0.0.1:0").ok()?;
+        let port = l.local_addr().ok()?.port();
+        let script: std::sync::Arc<std::sync::Mutex<std::collections::VecDeque<Vec<Vec<u8>>>>> = Default::default();
+        let sc = script.clone();
+        std::thread::spawn(move || {
+            for conn in l.incoming() {
+                let Ok(mut c) = conn else { continue };
+                let Some(chunks) = sc.lock().unwrap().pop_front() else { continue };   // probe connections get nothing
+                c.set_nodelay(true).ok();
+                c.set_read_timeout(Some(std::time::Duration::from_secs(2))).ok();
+                let mut tmp = [0u8; 4096];
+                let _ = c.read(&mut tmp);
+                for (i, ch) in chunks.iter().enumerate() {
+                    if i > 0 { std::thread::sleep(std::time::Duration::from_millis(40)); }
+                    if c.write_all(ch).is_err() { break; }
+                    let _ = c.flush();
+                }
+                // closing right away: anything still unread by the proxy stays readable on its side
+            }
+        });
+        Some(FakeRemote { port, script })
+    }
+    pub fn push(&self, chunks: Vec<Vec<u8>>) { self.script.lock().unwrap().push_back(chunks); }
 }
